@@ -490,10 +490,11 @@ impl Run {
         if let Some(k) = &known {
             if self.known.is_open(k) {
                 let what = self.known.what(k);
-                println!("KNOWN-FINDING: property={} {} [{}] (met in campaign {})", self.prop, what, k, campaign);
                 if !self.known_hit.contains(k) {
+                    println!("KNOWN-FINDING: property={} {} [{}]", self.prop, what, k);
                     self.known_hit.push(k.clone());
                 }
+                eprintln!("known finding {} met in campaign {}", k, campaign);
                 return;
             }
         }
@@ -571,8 +572,8 @@ impl Run {
         let status = self.known.status(id);
         match (status.as_deref(), outcome) {
             (Some("open"), Err(_)) => {
-                println!("KNOWN-FINDING: property={} {} [{}]", self.prop, self.known.what(id), id);
                 if !self.known_hit.iter().any(|k| k == id) {
+                    println!("KNOWN-FINDING: property={} {} [{}]", self.prop, self.known.what(id), id);
                     self.known_hit.push(id.to_string());
                 }
             }
